@@ -124,6 +124,8 @@ type rec struct {
 	order []int
 	byCol map[int]bool
 	dvals map[int]lval // values of the duplicate fields (struct records only), by dup id
+	// kids: associated records the relation fields of a struct record carry, by relation name
+	kids map[string][]kid
 }
 
 func (rc *rec) lvals() map[int]lval {
@@ -216,6 +218,18 @@ type op struct {
 	assoc *assocOp
 	// noTable: the chain does not start with db.Table(name): the table comes from the model's schema
 	noTable bool
+	// modelKids: associated records the relation fields of the Model value of an update finisher carry
+	// (one entry per element of a Model(slice)); struct records carry theirs in rec.kids
+	modelKids []map[string][]kid
+	// upserts: ocWhere = the condition of a conditional upsert (OnConflict.Where), ocKeys the stored rows
+	// that satisfy it (filled in by run); ocTarget = a predicate of the conflict target (TargetWhere)
+	// every row satisfies; ocCols = UpdateAll names the key as conflict target itself
+	ocWhere  *ocCond
+	ocKeys   map[string]bool
+	ocTarget *ocCond
+	ocCols   bool
+	// doNothingWhere: the recorded INSERT of a conditional UpdateAll reads "DO NOTHING WHERE" (set by run)
+	doNothingWhere bool
 }
 
 // ---- generator ----------------------------------------------------------------------
@@ -865,7 +879,7 @@ const nAssocKinds = 7
 
 func (g *gen) genOp(kind string) *op {
 	r, m := g.r, g.m
-	if strings.HasPrefix(kind, "assoc-") && len(m.rels) == 0 {
+	if strings.HasPrefix(kind, "assoc-") && len(m.fullRels()) == 0 {
 		kind = core.Pick(r, opKinds[:len(opKinds)-nAssocKinds])
 	}
 	o := &op{kind: kind, forms: map[string]bool{}}
@@ -1010,6 +1024,10 @@ func (g *gen) genOp(kind string) *op {
 		case "upsert-all":
 			g.selOmit(o, modesOmit, nonzeroFields(o.recs[0]))
 		}
+		g.genConflictClauses(o)
+		if n >= 2 && r.Chance(1, 4) {
+			o.batch = r.Range(1, 2) // the same upsert through CreateInBatches
+		}
 	case "save", "save-new", "save-cond":
 		o.family = "save"
 		o.saveAll = true
@@ -1105,6 +1123,7 @@ func (g *gen) genOp(kind string) *op {
 		panic("kind " + kind)
 	}
 	g.listForms(o)
+	g.addKids(o)
 	if updateKind(kind) {
 		if r.Chance(1, 3) {
 			g.genReturning(o)
@@ -1199,6 +1218,7 @@ func (g *gen) followUpCreate(o *op) *op {
 	if !g.writesSomething(n) {
 		return nil
 	}
+	g.addKids(n)
 	return n
 }
 
@@ -1261,7 +1281,7 @@ func (g *gen) followUp(o *op) *op {
 		tform: o.tform, useModel: o.useModel, modelKeys: o.modelKeys, modelSlice: o.modelSlice, modelElems: o.modelElems,
 		zeroLast: o.zeroLast, modelArray: o.modelArray, modelElemPtr: o.modelElemPtr, conds: o.conds,
 		sel: o.sel, omit: o.omit, selForm: o.selForm, omitJoin: o.omitJoin, selMode: o.selMode,
-		returning: o.returning, retCols: o.retCols}
+		returning: o.returning, retCols: o.retCols, modelKids: o.modelKids}
 	n.hooks = kind == "updates-struct" || kind == "updates-map" || kind == "update"
 	switch kind {
 	case "updates-struct", "updatecolumns-struct":
@@ -1294,19 +1314,21 @@ func (g *gen) followUp(o *op) *op {
 		n.col = nameRef{fi: f.idx, byCol: rc.byCol[f.idx]}
 		n.recs = []*rec{rc}
 	}
+	g.addKids(n) // the records its own struct value carries (the Model value is the handle's)
 	return n
 }
 
 // ---- execution ----------------------------------------------------------------------
 
-func (m *model) keyStruct(k lval) (reflect.Value, string) {
-	vals := map[int]lval{}
+func (m *model) keyStruct(k lval, kids map[string][]kid) (reflect.Value, string) {
+	rc := &rec{vals: map[int]mval{}, kids: kids}
 	for i, part := range m.keyParts(k) {
 		if !isGoZero(m.pks[i].k, part) {
-			vals[m.pks[i].idx] = part
+			rc.vals[m.pks[i].idx] = mval{form: "typed", lv: part}
 		}
 	}
-	return m.newStruct(vals, nil), "&" + m.structLit(vals, nil)
+	p, lit := m.recStruct(rc)
+	return p, "&" + lit
 }
 
 func (m *model) sliceOf(recs []*rec, elemPtr bool) (interface{}, string) {
@@ -1317,13 +1339,13 @@ func (m *model) sliceOf(recs []*rec, elemPtr bool) (interface{}, string) {
 	sl := reflect.MakeSlice(reflect.SliceOf(et), 0, len(recs))
 	var lits []string
 	for _, rc := range recs {
-		p := m.newStruct(rc.lvals(), rc.dvals)
+		p, lit := m.recStruct(rc)
 		if elemPtr {
 			sl = reflect.Append(sl, p)
-			lits = append(lits, "&"+m.structLit(rc.lvals(), rc.dvals))
+			lits = append(lits, "&"+lit)
 		} else {
 			sl = reflect.Append(sl, p.Elem())
-			lits = append(lits, m.structLit(rc.lvals(), rc.dvals)[1:])
+			lits = append(lits, lit[1:])
 		}
 	}
 	sp := reflect.New(sl.Type())
@@ -1367,8 +1389,8 @@ func exec(db *gorm.DB, m *model, o *op) (pre, chain, fin string, handle, res *go
 	var selfPtr reflect.Value
 	var selfLit string
 	if o.valueIsModel {
-		selfPtr = m.newStruct(o.recs[0].lvals(), o.recs[0].dvals)
-		selfLit = "&" + m.structLit(o.recs[0].lvals(), o.recs[0].dvals)
+		selfPtr, selfLit = m.recStruct(o.recs[0])
+		selfLit = "&" + selfLit
 	}
 	var pkCols []clause.Column
 	var pkNames []string
@@ -1390,8 +1412,8 @@ func exec(db *gorm.DB, m *model, o *op) (pre, chain, fin string, handle, res *go
 					desc += ".Model(v)"
 				case o.modelSlice:
 					var rs []*rec
-					for _, k := range o.modelElems {
-						rc := &rec{vals: map[int]mval{}}
+					for i, k := range o.modelElems {
+						rc := &rec{vals: map[int]mval{}, kids: o.kidsOfModel(i)}
 						if !m.keyIsZero(k) {
 							m.setKey(rc, k)
 						}
@@ -1404,12 +1426,13 @@ func exec(db *gorm.DB, m *model, o *op) (pre, chain, fin string, handle, res *go
 					tx = tx.Model(v)
 					desc += ".Model(" + lit + ")"
 				case len(o.modelKeys) == 1:
-					v, lit := m.keyStruct(o.modelKeys[0])
+					v, lit := m.keyStruct(o.modelKeys[0], o.kidsOfModel(0))
 					tx = tx.Model(v.Interface())
 					desc += ".Model(" + lit + ")"
 				default:
-					tx = tx.Model(reflect.New(m.typ).Interface())
-					desc += ".Model(&T{})"
+					v, lit := m.keyStruct(m.zeroKey(), o.kidsOfModel(0))
+					tx = tx.Model(v.Interface())
+					desc += ".Model(" + lit + ")"
 				}
 			}
 		},
@@ -1469,14 +1492,16 @@ func exec(db *gorm.DB, m *model, o *op) (pre, chain, fin string, handle, res *go
 			}
 		},
 		func() { // Clauses
+			var oc clause.OnConflict
+			var ocLit []string
 			switch o.kind {
 			case "upsert-cols":
 				var cs []string
 				for _, fi := range o.doCols {
 					cs = append(cs, m.fields[fi].col)
 				}
-				tx = tx.Clauses(clause.OnConflict{Columns: pkCols, DoUpdates: clause.AssignmentColumns(cs)})
-				desc += ".Clauses(clause.OnConflict{" + pkLit + ", DoUpdates: clause.AssignmentColumns([]string{" + quoteAll(cs) + "})})"
+				oc = clause.OnConflict{Columns: pkCols, DoUpdates: clause.AssignmentColumns(cs)}
+				ocLit = []string{pkLit, "DoUpdates: clause.AssignmentColumns([]string{" + quoteAll(cs) + "})"}
 			case "upsert-assign":
 				mp := map[string]interface{}{}
 				var parts []string
@@ -1485,14 +1510,30 @@ func exec(db *gorm.DB, m *model, o *op) (pre, chain, fin string, handle, res *go
 					mp[f.col] = a.v.arg(f)
 					parts = append(parts, fmt.Sprintf("%q: %s", f.col, a.v.lit(f)))
 				}
-				tx = tx.Clauses(clause.OnConflict{Columns: pkCols, DoUpdates: clause.Assignments(mp)})
-				desc += ".Clauses(clause.OnConflict{" + pkLit + ", DoUpdates: clause.Assignments(map[string]interface{}{" + strings.Join(parts, ", ") + "})})"
+				oc = clause.OnConflict{Columns: pkCols, DoUpdates: clause.Assignments(mp)}
+				ocLit = []string{pkLit, "DoUpdates: clause.Assignments(map[string]interface{}{" + strings.Join(parts, ", ") + "})"}
 			case "upsert-all":
-				tx = tx.Clauses(clause.OnConflict{UpdateAll: true})
-				desc += ".Clauses(clause.OnConflict{UpdateAll: true})"
+				oc = clause.OnConflict{UpdateAll: true}
+				if o.ocCols {
+					oc.Columns = pkCols
+					ocLit = append(ocLit, pkLit)
+				}
+				ocLit = append(ocLit, "UpdateAll: true")
 			case "upsert-nothing":
-				tx = tx.Clauses(clause.OnConflict{DoNothing: true})
-				desc += ".Clauses(clause.OnConflict{DoNothing: true})"
+				oc = clause.OnConflict{DoNothing: true}
+				ocLit = []string{"DoNothing: true"}
+			}
+			if ocLit != nil {
+				if o.ocTarget != nil {
+					oc.TargetWhere = clause.Where{Exprs: o.ocTarget.exprs}
+					ocLit = append(ocLit, "TargetWhere: clause.Where{Exprs: []clause.Expression{"+o.ocTarget.lit+"}}")
+				}
+				if o.ocWhere != nil {
+					oc.Where = clause.Where{Exprs: o.ocWhere.exprs}
+					ocLit = append(ocLit, "Where: clause.Where{Exprs: []clause.Expression{"+o.ocWhere.lit+"}}")
+				}
+				tx = tx.Clauses(oc)
+				desc += ".Clauses(clause.OnConflict{" + strings.Join(ocLit, ", ") + "})"
 			}
 			switch o.returning {
 			case "all":
@@ -1540,8 +1581,8 @@ func exec(db *gorm.DB, m *model, o *op) (pre, chain, fin string, handle, res *go
 func finish(tx *gorm.DB, m *model, o *op, selfPtr reflect.Value, selfLit string) (pre, desc string, res *gorm.DB) {
 	structArg := func() (interface{}, string) {
 		if len(o.recs) == 1 && o.kind != "create-slice" && o.kind != "create-batches" && o.kind != "save-slice" {
-			p := m.newStruct(o.recs[0].lvals(), o.recs[0].dvals)
-			return p.Interface(), "&" + m.structLit(o.recs[0].lvals(), o.recs[0].dvals)
+			p, lit := m.recStruct(o.recs[0])
+			return p.Interface(), "&" + lit
 		}
 		return m.sliceOf(o.recs, o.elemPtr)
 	}
@@ -1557,6 +1598,12 @@ func finish(tx *gorm.DB, m *model, o *op, selfPtr reflect.Value, selfLit string)
 			desc += ".FirstOrCreate(" + lit + ")"
 		}
 	case "create", "create-slice", "upsert-cols", "upsert-assign", "upsert-all", "upsert-nothing":
+		if o.batch > 0 && len(o.recs) > 1 {
+			v, lit := m.sliceOf(o.recs, o.elemPtr)
+			res = tx.CreateInBatches(v, o.batch)
+			desc += fmt.Sprintf(".CreateInBatches(%s, %d)", lit, o.batch)
+			break
+		}
 		v, lit := structArg()
 		res = tx.Create(v)
 		desc += ".Create(" + lit + ")"
@@ -1592,8 +1639,8 @@ func finish(tx *gorm.DB, m *model, o *op, selfPtr reflect.Value, selfLit string)
 			v, lit = selfPtr.Interface(), "v"
 			pre = "v := " + selfLit + "; "
 		} else {
-			p := m.newStruct(o.recs[0].lvals(), o.recs[0].dvals)
-			lit = m.structLit(o.recs[0].lvals(), o.recs[0].dvals)
+			var p reflect.Value
+			p, lit = m.recStruct(o.recs[0])
 			if o.valPtr {
 				v, lit = p.Interface(), "&"+lit
 			} else {
